@@ -21,7 +21,7 @@ def plan (s : St) (t : Txn) (r : CResult) : Option Plan :=
       if !present s.accts t.sender then none
       else if (get s.accts t.sender).balance < addWrap t.fee t.value then none
       else if !t.toValid then none
-      else some ⟨[⟨t.sender, t.to, t.value, t.toCanon⟩], [], [], .success⟩
+      else some ⟨[⟨t.sender, t.to, t.value, t.toCanon, t.toSameLeaf⟩], [], [], .success⟩
     | .sc =>
       match r with
       | .internal => none
@@ -58,7 +58,7 @@ theorem step_eq (feeOn : Bool) (s : St) (t : Txn) (r : CResult) :
           · simp only [h3, if_false]
             by_cases h4 : t.toValid
             · simp only [h4, Bool.not_true, Bool.false_eq_true, if_false, finish, applyWrites]
-              cases settle feeOn s.accts t [⟨t.sender, t.to, t.value, t.toCanon⟩] [] <;> rfl
+              cases settle feeOn s.accts t [⟨t.sender, t.to, t.value, t.toCanon, t.toSameLeaf⟩] [] <;> rfl
             · simp [h4, finish]
         · simp [h0, finish]
       | sc =>
